@@ -36,12 +36,16 @@ class C16(Spec):
             "simultaneous); observed per call: call instant, return instant, value (channel identity global/own<k>), the "
             "callback executions, closedness of every returned channel after each Close return. monitor mode: the Lean "
             "driver searches the model's interleavings at each instant for an execution producing exactly the observation. "
-            "plus stress lines (real goroutines, invariants counted in the harness). distinct by script line; non-trivial = "
+            "plus stress lines (real goroutines, invariants counted in the harness) and an ORACLE-ONLY class `Xg<d>` "
+            "(the callback ends its goroutine with runtime.Goexit; the Close call is recorded as `exited`; afterwards IsClosed, "
+            "C(), WaitUtil and further Close calls with counting callbacks are judged by the oracle; the driver answers `ok oracle-only`). distinct by script line; non-trivial = "
             "a call is issued while a callback is running or at one of its end points, or two goroutines call at the same instant")
     trusted_base = ["Go runtime faketime clock (time advances only when every goroutine is blocked)",
                     "sync.Mutex / channel close / select / timer semantics as encoded in Got.Model.WaitClose (mutex = exclusive "
                     "holder, close wakes every receiver, select takes any ready branch, a ready select does not sleep)"]
-    assumptions = ["callbacks do not call back into the same WaitClose (Close would self-deadlock on its mutex)",
+    assumptions = ["the Lean model's callbacks return or panic; callbacks leaving through runtime.Goexit are not covered by the "
+                   "theorems - that class is judged by the property oracle only",
+                   "callbacks do not call back into the same WaitClose (Close would self-deadlock on its mutex)",
                    "WaitUtil with timeout <= 0 may return either value when the object is closed (timer and channel both ready)"]
 
     def oracle(self, script, impl):
@@ -132,6 +136,7 @@ class C16(Spec):
         model = ex.get("model") or []
         ctx["coverage"]["monitor_unchecked_lines"] = sum(1 for m in model if m.startswith("ok unchecked"))
         ctx["coverage"]["monitor_checked_lines"] = sum(1 for m in model if m == "ok")
+        ctx["coverage"]["monitor_oracle_only_lines"] = sum(1 for m in model if m.startswith("ok oracle-only"))
 
     def nontrivial(self, script, impl):
         if script.startswith("stress"):
